@@ -11,8 +11,14 @@ size_t strlen(const char* s) {
   while (s[i] != 0) { i++; }
   return i;
 }
-char* strcpy(char* dst, const char* src) { size_t i = 0; while (src[i] != 0) { dst[i] = src[i]; i++; } dst[i] = 0; return dst; }
-char* strcat(char* dst, const char* src) { size_t n = 0; while (dst[n] != 0) { n++; } size_t i = 0; while (src[i] != 0) { dst[n + i] = src[i]; i++; } dst[n + i] = 0; return dst; }
+/* C library precondition: the objects copied between do not overlap (7.24.2.3, 7.24.3.1) */
+static void cv_no_overlap(const char* dst, size_t dn, const char* src, size_t sn, const char* what) {
+  int ov = __CPROVER_same_object(dst, src) && !(__CPROVER_POINTER_OFFSET(dst) + dn <= __CPROVER_POINTER_OFFSET(src) || __CPROVER_POINTER_OFFSET(src) + sn <= __CPROVER_POINTER_OFFSET(dst));
+  __CPROVER_assert(!ov, "[C16] strcpy / strcat: source and destination do not overlap (C library precondition)");
+  __CPROVER_assume(!ov);
+}
+char* strcpy(char* dst, const char* src) { size_t l = 0; while (src[l] != 0) l++; cv_no_overlap(dst, l + 1, src, l + 1, "strcpy"); size_t i = 0; while (src[i] != 0) { dst[i] = src[i]; i++; } dst[i] = 0; return dst; }
+char* strcat(char* dst, const char* src) { size_t n = 0; while (dst[n] != 0) { n++; } size_t l = 0; while (src[l] != 0) l++; cv_no_overlap(dst, n + l + 1, src, l + 1, "strcat"); size_t i = 0; while (src[i] != 0) { dst[n + i] = src[i]; i++; } dst[n + i] = 0; return dst; }
 char* strstr(const char* h, const char* n) {
   if (n[0] == 0) return (char*)h;
   for (size_t i = 0; h[i] != 0; i++) {
